@@ -146,3 +146,18 @@ func Torsion() [8]Point {
 func (p Point) ToMontgomeryU() *big.Int {
 	return fdiv(fadd(one, p.Y), fsub(one, p.Y))
 }
+
+// ClampedScalarFromSeed is RFC 8032 5.1.5 steps 1-2.
+func ClampedScalarFromSeed(seed []byte) *big.Int {
+	h := sha512Sum(seed)
+	return ClampInt(h[:32])
+}
+
+// ClampInt clamps 32 bytes as X25519/Ed25519 do and returns the integer.
+func ClampInt(b []byte) *big.Int {
+	t := append([]byte{}, b[:32]...)
+	t[0] &= 248
+	t[31] &= 127
+	t[31] |= 64
+	return FromLE(t)
+}
